@@ -378,7 +378,11 @@ impl Exec {
                     self.model.stats.weight_added = self.model.stats.weight_added.wrapping_add(delta as u64);
                     entry.weight = weight;
                 }
-                if weight != entry.weight && accounting_ok { field_failure = Some(Failure::new(blame, &tag("weight-mismatch"), format!("key {} is charged {} but should be charged {}", k, weight, entry.weight))); break; }
+                if weight != entry.weight && accounting_ok {
+                    let also = if entry.explicit_weight { vec!["C08".to_string()] } else { Vec::new() };
+                    field_failure = Some(Failure::new(blame, &tag("weight-mismatch"), format!("key {} is charged {} but should be charged {}{}", k, weight, entry.weight, if entry.explicit_weight { " (the weight explicitly requested by the last acknowledged put_or_update)" } else { "" })).with_also(also));
+                    break;
+                }
             }
             if expiry != entry.deadline { field_failure = Some(Failure::new(blame, &tag("expiry-mismatch"), format!("key {} has expiry {:?} but should have {:?}", k, expiry, entry.deadline))); break; }
             if soft_deleted != entry.soft_deleted { field_failure = Some(Failure::new(blame, &tag("soft-delete-mismatch"), format!("key {} soft_deleted = {} but should be {}", k, soft_deleted, entry.soft_deleted))); break; }
@@ -672,7 +676,7 @@ impl Exec {
         let ttl = match ttl_req { TtlReq::Set(sel) => match self.resolve_ttl(sel) { Some(ttl) => Some(ttl), None => return Ok(None) }, _ => None };
         if ttl == Some(Duration::ZERO) { self.hold_sweeper(); }
         let remove = *ttl_req == TtlReq::Remove;
-        let explicit = w.as_ref().map(|sel| sel.resolve(self.cfg.max_weight));
+        let explicit = w.as_ref().map(|sel| match (sel, self.model.held.get(&k)) { (WSel::Current, Some(entry)) => entry.weight, _ => sel.resolve(self.cfg.max_weight) });
         let computed = if with_value { Some(self.cfg.weight_fn(key, ttl.is_some())) } else { None };
         let base = explicit.or(computed);
         let value = if with_value { Some(self.next_token(k)) } else { None };
